@@ -166,6 +166,14 @@ def r2b(ctx, impls):
         cm = lookup_chain(prog, m) if m else None
         ck = lookup_chain(prog, k) if k else None
         ok = cm is not None and ck is not None and cm[0] == ck[0] and cm[1] == ck[1]
+        if not ok and m and k:
+            # the two methods may be written differently: compare what they decide, not how they are spelled
+            dm, om = global_only_on_local_miss(prog, m)
+            dk, ok_ = global_only_on_local_miss(prog, k)
+            if dm and dk and om and ok_:
+                ok = True
+                cm = (["global registry consulted exactly on a local miss"], True)
+                ck = (["global registry consulted exactly on a local miss"], True)
         ctx.ob("R2", "ReferentRule resolves kinds and matches through the same lookup", ok,
                "lookup chain after eval_local — match_node_with_env: %s; potential_kinds: %s%s" % (cm and cm[0], ck and ck[0], "" if ok else " — the two methods can resolve `matches: id` to different rules (local vs global of the same id), so the kind set may belong to a rule that is not the one matched"),
                where=(k or m).loc() if (k or m) else None)
@@ -284,6 +292,35 @@ def lookup_chain(prog, f):
         cur = nxt
     ret_ok = any(o.kind == "call" and o.ref is cur for o in f.trace_local(0))
     return chain, ret_ok
+
+
+def global_only_on_local_miss(prog, f):
+    """For a ReferentRule method: is the global registry consulted exactly when the local lookup (eval_local) returned None —
+    either `eval_local(..).or_else(|| eval_global(..))` with the or_else applied to eval_local's own result (no flatten/and_then in
+    between, which would turn 'local rule without an answer' into a miss), or an explicit test of eval_local's result whose None arm
+    dominates the eval_global call.  Returns (decided, ok)."""
+    loc = [c for c in f.calls if c.name == "eval_local" and c.bb in f.live_blocks]
+    if len(loc) != 1:
+        return False, False
+    loc = loc[0]
+    direct = [c for c in f.calls if c.name == "eval_global" and c.bb in f.live_blocks]
+    if direct:
+        arms = option_arms(f, loc)
+        ok = bool(arms["none"]) and all(any(f.dominates(nb, c.bb) or nb == c.bb for nb in arms["none"]) for c in direct)
+        return True, ok
+    for g in prog.closures_of(f):
+        if not any(c.name == "eval_global" for h in prog.family(g) for c in h.calls):
+            continue
+        cons = closure_consumer(prog, g)
+        if not cons or cons[0].id != f.id:
+            continue
+        c = cons[1]
+        if c.name not in ("or_else", "or", "unwrap_or_else", "map_or_else") or not c.args or c.args[0][0] == "k":
+            return True, False
+        recv = f.trace_operand(c.args[0])
+        ok = bool(recv) and all(o.kind == "call" and o.ref.name == "eval_local" and not o.proj for o in recv)
+        return True, ok
+    return False, False
 
 
 # ------------------------------------------------------------------------------------------------
